@@ -352,6 +352,13 @@ func seqTail(v ssa.Value, depth int, inprog map[ssa.Value]bool) ([]SeqElem, bool
 	if c, ok := v.(*ssa.Const); ok && c.Value == nil {
 		return nil, true
 	}
+	// `append(a, b...)` with b a slice built here: its elements
+	switch v.(type) {
+	case *ssa.MakeSlice, *ssa.Phi, *ssa.Call:
+		if s, ok := seqD(v, depth+1, inprog); ok {
+			return s, true
+		}
+	}
 	return []SeqElem{{Kind: "spread", D: desc(v), V: v}}, true
 }
 
